@@ -136,7 +136,7 @@ def reference_pairing(specs, geo):
         lt = pos_at(b['start_off'])
         gt = pos_at(b['start_off'] + b['start_len'] - 1)
         same = b['start_comment'] == b['end_comment']
-        out.append(dict(name=b['name'], lt=lt, gt=gt,
+        out.append(dict(name=b['name'], order=(b['start_comment'], b['start_off']), lt=lt, gt=gt,
                         content_bytes=(0, 0) if same else (g['eo'], ge['so']),
                         content_start=(g['el'], g['ec']), content_end=(ge['sl'], ge['sc'])))
     return 'ok', out
